@@ -6,7 +6,7 @@ from harness import common as C
 from harness import l2
 
 FILES = ["Engine/Toposort.v", "Engine/ToposortProof.v", "Engine/Tagged.v", "Engine/Tower.v", "Engine/Run08.v",
-         "Engine/TowerProof.v", "Props/C07.v"]
+         "Engine/TowerProof.v", "Engine/TaggedProof.v", "Engine/TowerAlg.v", "Engine/FwdCorrect.v", "Engine/FwdStep.v", "Engine/FwdEval.v", "Props/C07.v"]
 RULE = ("for random operator-free bodies, every one of the 2^k sequences of reverse/forward operators of order "
         "k=2..4 with respect to one variable, plus random nested programs of differentiation depth >= 2; distinct "
         "by program text; non-trivial when order >= 2 and the k-th derivative is not identically zero.  Built-in "
